@@ -636,11 +636,8 @@ class Gen:
         n = self.m.ta_length_or_zero(view)
         f = r.choice(["load", "store", "store", "add", "sub", "and", "or", "xor", "exchange", "compareExchange"])
         st = {"op": "atomics", "f": f, "v": k, "i": self.abs_index(max(0, n - 1), 1, view.buf)}
-        big = bm.is_bigint_type(view.t) if view.t in TYPES else False
         if f != "load":
             st["val"] = self.value_for(view.t if TYPES[view.t][1] != "c" else "Uint8", view.buf)
-            if st["val"][0] == "n" and not big:
-                pass
         if f == "compareExchange":
             cur = self.m.ta_get(view, 0) if n > 0 else None
             if cur is not None and cur is not bm.UNKNOWN and r.chance(0.5):
